@@ -180,14 +180,17 @@ var c16Edge = map[int][]string{
 	4:  {"GET\thttp://h/\n", "GET\rhttp://h/\n", "GET \n", " \n", "GET http://h/\n:\n", "GET http://h/\n@\n", "GET http://h/\nX\n", "#\n", "GET http://h/\n@/nonexistent/zzz\n"},
 	5:  {"{}\n", "\n\n", "{\"method\":\"GET\"}\n", "{\"method\":\"GET\",\"url\":\"http://h\",\"header\":null}\n", "[", "{\"body\":\"!!\"}\n", "null\n"},
 	6:  {"  ", "\t\t", "\r\n", "[]", "[ ]", "[,]", "[", "]", "][", "[0", "[-1s]", "[1ns,1ns]", "[9223372036854775807ns,1h]", "   []   "},
-	7:  {"/", "1/", "/s", "1/0", "1/-1s", "-5/s", "9223372036854775808", "1/9223372036854775807h", "1//s", "0x1/s"},
+	7:  {"/", "1/", "50/", "-3/", "0/", "50//", "/s", "1/0", "1/-1s", "-5/s", "9223372036854775808", "1/9223372036854775807h", "1//s", "0x1/s"},
 	8:  {":", "", " : ", "a:", ":b", "a:b:c", "\x00:\x00"},
 	9:  {"", " ", "B", "-0", "1e3", "9999999999999999999999GB", "1.5.5MB"},
 	10: {":::", "a:b:c", "::::", "a:1:b", "a:1:b:2:c", "[::1]:80:[::2]:81", "a:x:b:y"},
 	11: {"", ",", ",,", ":", "[", "[::1", "1.2.3.4:99999", "a,b,c,"},
 }
 
-func c16Input(rng *rand.Rand, parser int) ([]byte, string) {
+func c16Input(rng *rand.Rand, parser int, idx int) ([]byte, string) {
+	if e := c16Edge[parser]; idx/len(c16Parsers) < len(e) {
+		return []byte(e[idx/len(c16Parsers)]), "edge" // every edge input once, whatever the seed
+	}
 	if rng.Intn(25) == 0 {
 		e := c16Edge[parser]
 		return []byte(e[rng.Intn(len(e))]), "edge"
@@ -321,7 +324,7 @@ func c16Flag(op string, value string) (class int) {
 
 func runC16(idx int, rng *rand.Rand, tier string) []Case {
 	parser := idx % len(c16Parsers)
-	in, how := c16Input(rng, parser)
+	in, how := c16Input(rng, parser, idx)
 	if parser >= 7 && !utf8.Valid(in) {
 		in = []byte(strings.ToValidUTF8(string(in), "?")) // flag values travel as JSON strings
 	}
